@@ -88,7 +88,8 @@ def _normalize_response(
                 f"with incorrect keys. Expected: {sorted(expected_keys)}, "
                 f"Got: {sorted(actual_keys)}. " + (f"Missing: {sorted(missing)}. " if missing else "") + (f"Extra: {sorted(extra)}." if extra else "")
             )
-        return response
+        # The handler's own dict is not ours to write into (emit sentinels are added next)
+        return dict(response)
     # Single value (or single value for multi-output): assign to first output
     return {data_outputs[0]: response}
 
